@@ -4,6 +4,7 @@ import (
 	"bytes"
 	"fmt"
 	"math/rand"
+	"strings"
 	"sync"
 	"time"
 
@@ -314,6 +315,7 @@ func c02config(c *Check, seed int64, name string, opt EnvOpt, hs string) {
 	}
 	c02slow(c, env, script, seed, name)
 	c02slowSmall(c, env, script, seed, name)
+	c02stopAndGo(c, env, script, seed, name)
 	c.Count("race_reports_diagnostic_"+name, int64(env.P.RaceReports()))
 }
 
@@ -483,6 +485,94 @@ func c02slowSmall(c *Check, env *Env, script *Script, seed int64, name string) {
 	}
 	if s.GarbErr != "" {
 		c.Violate(Violation{Class: "reply-bytes-altered", Shape: "slow-reader-small", Detail: "reply stream stopped parsing: " + s.GarbErr, Witness: wit})
+	}
+	script.Forget(keys...)
+}
+
+
+// c02stopAndGo: a client that reads in bursts while replies keep arriving
+// (backlog spills past the static part, is partly drained, then grows again),
+// twice on the same connection with a complete drain in between; between the
+// two bursts other clients hang up in the middle of a request.
+func c02stopAndGo(c *Check, env *Env, script *Script, seed int64, name string) {
+	rng := rand.New(rand.NewSource(seed + 79))
+	cl, err := DialClient(env.P.Addr, "", 4096)
+	must(err, "dial stop-and-go reader")
+	defer cl.Close()
+	var replies [][]byte
+	var keys []string
+	total := 0
+	sent := 0
+	for burst := 0; burst < 2; burst++ {
+		cl.PauseReading(true)
+		waves := 6 + rng.Intn(6)
+		for w := 0; w < waves; w++ {
+			nreq := 40 + rng.Intn(80)
+			var batch []byte
+			for i := 0; i < nreq; i++ {
+				tok := newToken("g")
+				payload := make([]byte, 2000+rng.Intn(30000))
+				rng.Read(payload)
+				rep := BulkReply(payload)
+				script.Plan(tok).Act = func(r *BReq) Action { return Action{Reply: rep} }
+				replies = append(replies, rep)
+				keys = append(keys, tok)
+				total += len(rep)
+				batch = append(batch, Req("GET", tok)...)
+				if i%8 == 7 {
+					cl.Send(batch)
+					batch = batch[:0]
+				}
+			}
+			cl.Send(batch)
+			sent += nreq
+			env.Barrier()
+			// read for a short while: a partial drain, then more replies on top of the rest
+			cl.PauseReading(false)
+			time.Sleep(time.Duration(1+rng.Intn(15)) * time.Millisecond)
+			cl.PauseReading(true)
+		}
+		cl.PauseReading(false)
+		ok := cl.WaitReplies(sent, 120*time.Second)
+		if !ok {
+			break
+		}
+		if burst == 0 {
+			// other clients hang up in the middle of a request (their leftovers must die with them)
+			for k := 0; k < 6; k++ {
+				ab, err := env.Dial()
+				must(err, "dial")
+				pz := Req("SET", "half"+itoa(k), strings.Repeat("z", 300+rng.Intn(3000)))
+				cut := len(pz) - 1 - rng.Intn(len(pz)/2)
+				ab.SendChunks(pz[:cut], []int{cut / 2}, 200*time.Microsecond)
+				env.Barrier()
+				ab.Abort()
+			}
+			env.Barrier()
+		}
+	}
+	s := cl.Snapshot()
+	c.Eval(1)
+	c.Distinct(fmt.Sprintf("%s|stop-and-go-reader|%d", name, sent))
+	c.Count("slow_reader_backlog_bytes", int64(total))
+	wit := map[string]interface{}{"config": name, "requests": sent, "bytes": total, "received_replies": len(s.Replies), "garbage": s.GarbErr, "episode": "reader alternates between reading and not reading while replies keep arriving; two bursts on one connection"}
+	if !env.P.Alive() {
+		c.Violate(Violation{Class: "proxy-died", Shape: "stop-and-go-reader", Detail: env.P.PanicLine(), Witness: wit})
+		return
+	}
+	if len(s.Replies) < sent && s.GarbErr == "" {
+		c.Violate(Violation{Class: "slow-reader-incomplete", Shape: "stop-and-go-reader", Detail: fmt.Sprintf("reader got %d of %d replies (closed=%v)", len(s.Replies), sent, s.Closed), Witness: wit})
+	}
+	if s.GarbErr != "" {
+		c.Violate(Violation{Class: "reply-bytes-altered", Shape: "stop-and-go-reader", Detail: "reply stream stopped parsing (reordered bytes): " + s.GarbErr, Witness: wit})
+	}
+	for i := 0; i < len(s.Replies) && i < sent; i++ {
+		if !bytes.Equal(s.Replies[i].Val.Raw, replies[i]) {
+			wit["position"] = i
+			c.Violate(Violation{Class: "reply-bytes-altered", Shape: "stop-and-go-reader", Detail: fmt.Sprintf("reply %d differs at offset %d (bytes of the backlog reordered, lost or duplicated)", i, firstDiffB(s.Replies[i].Val.Raw, replies[i])), Witness: wit})
+			break
+		}
+		c.Count("reply_bytes_compared", int64(len(replies[i])))
 	}
 	script.Forget(keys...)
 }
